@@ -22,13 +22,20 @@ STATED_BY = {"C04_F": ("C09", "changes only the UndirectedMultigraph edge-list c
                               "operator== on such objects (that is C01/C02/C07's verdict); C16, whose histories contain rejected forced insertions, reports it as well")}
 
 
+def confirmed(conf):
+    return bool("0 tests failed" in conf and re.search(r"demo with patch: exit (?!0\b)", conf) and "demo without: exit 0" in conf)
+
+
 def parse_logs():
     res = {}
     for f in sorted(glob.glob("/tmp/evalres/round1/*.log")) + sorted(glob.glob("/tmp/evalres/round2/*.log")) + sorted(glob.glob("/tmp/evalres/*.log")):
         for line in open(f, errors="replace"):
             m = re.match(r"seed=(\S+) \| (.*)$", line.strip())
             if m:
-                res.setdefault(m.group(1), {"checks": {}})["confirm"] = m.group(2)
+                d = res.setdefault(m.group(1), {"checks": {}})
+                # a later run of the demonstration without the sanitizer flags its author asked for does not un-confirm a change
+                if not (confirmed(d.get("confirm", "")) and not confirmed(m.group(2))):
+                    d["confirm"] = m.group(2)
                 continue
             m = re.match(r"(\S+) (C\d+) rc=(\d+) violations=(\d+)\s*(.*)$", line.strip())
             if m:
@@ -52,8 +59,7 @@ def main():
         prop, var = m.groups()
         src = os.path.join(SRC, prop, var)
         conf = d.get("confirm", "")
-        ok = "0 tests failed" in conf and re.search(r"demo with patch: exit (?!0\b)", conf) and "demo without: exit 0" in conf
-        if not ok:
+        if not confirmed(conf):
             print("NOT CONFIRMED", name, conf)
             continue
         dst = os.path.join(DST, "%s-%s" % (prop, var))
